@@ -87,8 +87,8 @@ class Acc:
         self.notes += o.notes
 
 
-class UnitTimeout(Exception):
-    pass
+class UnitTimeout(BaseException):
+    """not an Exception: harness code that catches Exception around the implementation must not swallow it"""
 
 
 def _alarm(signum, frame):
@@ -99,7 +99,7 @@ def _worker(args):
     modname, unit = args
     mod = importlib.import_module(modname)
     signal.signal(signal.SIGALRM, _alarm)
-    signal.alarm(UNIT_TIMEOUT)
+    signal.alarm(UNIT_TIMEOUT * (3 if os.environ.get("VERIF_TIER_ACTIVE") == "thorough" else 1))
     t0 = time.time()
     try:
         acc = mod.run_unit(unit)
@@ -202,6 +202,7 @@ def main(argv=None):
         print("replay: case no longer violates the property")
         return 0
 
+    os.environ["VERIF_TIER_ACTIVE"] = a.tier
     units = mod.units(a.tier, seed)
     acc = Acc()
     jobs = max(1, min(a.jobs, len(units)))
